@@ -4,6 +4,7 @@ use serde_json::Value;
 mod c01;
 mod c02;
 mod c03;
+mod c04;
 mod c06;
 mod c07;
 mod c08;
@@ -53,6 +54,7 @@ fn run_inner(case: &str, args: &Value) -> Option<Outcome> {
         "c33_subtype" => Some(c33::subtype(args)),
         "c14_pos" => Some(c14::pos(args)),
         "c12_upload" => Some(c12::upload(args)),
+        "c04_serial" => Some(c04::serial(args)),
         "c02_exec" => Some(c02::exec(args)),
         "c01_exec" => Some(c01::exec(args)),
         "c19_modes" => Some(c19::modes(args)),
@@ -89,6 +91,7 @@ pub fn search(case: &str, seed: u64, open: &[String]) -> Option<SearchResult> {
         "c33_subtype" => Box::new(c33::inputs(seed)),
         "c14_pos" => Box::new(c14::pos_inputs(seed)),
         "c12_upload" => Box::new(c12::upload_inputs(seed)),
+        "c04_serial" => Box::new(c04::inputs(seed, open)),
         "c02_exec" => Box::new(c02::inputs(seed, open)),
         "c01_exec" => Box::new(c01::inputs(seed, open)),
         "c19_modes" => Box::new(c19::inputs(seed, open)),
